@@ -38,7 +38,7 @@ Section Search.
     rewrite (wrap64 (lo + (hi - lo) / 2)) by lia.
     rewrite go_index_ok by (unfold go_len; fold n; lia). cbn [bind].
     rewrite (wrap64 (lo + (hi - lo) / 2 + 1)) by lia.
-    reflexivity.
+    destruct (nth (Z.to_nat (lo + (hi - lo) / 2)) sh 0 <=? h); reflexivity.
   Qed.
 
   Lemma search_loop fuel : forall f lo hi, 0 <= lo <= hi -> hi <= n ->
